@@ -42,6 +42,8 @@ def strategy(tier):
         "carveout": st.sampled_from([True, True, False]),
         # output locations of C13: absolute, relative to the cwd, nested directly below the input root (not pre-existing)
         "outloc": st.sampled_from(["abs", "nested", "abs", "rel"]),
+        # an earlier run of the same command line, minus -r or with another prefix, already filled the output directory
+        "prior": st.sampled_from([None, None, "non-recursive", "other-prefix"]),
     })
 
 
@@ -99,6 +101,10 @@ def evaluate(case):
         for p, s in pats:
             if s == "e":
                 argv += ["-e", p]
+        if case.get("prior") and case.get("outloc") != "nested":
+            res.labels.append("prior-run:" + case["prior"])
+            prior_argv = [a for a in argv if a != "-r"] if case["prior"] == "non-recursive" else argv + ["-p", "EarlierPrefix"]
+            S.run_main(prior_argv, cwd=cwd)
         run = S.run_main(argv, cwd=cwd, order=case["order"])
         if run.exc is not None or run.code != 0:
             res.fail(exc_key(run.exc) if run.exc else f"exit-{run.code}", (repr(run.exc) + run.stderr)[-300:])
